@@ -24,7 +24,7 @@ def to_coq(c, o):
     if "ok" not in res or oo.get("labels") is None:
         return None
     labs = clist(f"(mkLO {cz(n if n is not None else -1)} {cz(dd if dd is not None else -1)} {cz(w if w is not None else -1)} {clist(f'({cn(k)}, {cz(v)})' for k, v in types)})"
-                 for n, dd, w, types, _ in oo["labels"])
+                 for n, dd, w, types, *_ in oo["labels"])
     return f"KLab {grammars.c_decl(c['decl'])} {grammars.c_value(res['ok'])} {labs}"
 
 
@@ -50,7 +50,15 @@ def gen_offspring(seed, tier):
     r = flow.rng(seed, "c11o")
     big = tier == "thorough"
     cases = []
+    fam = family()
+    # tree crossover only transplants donor subtrees when the start symbol is a concrete production (known finding F13):
+    # the same hierarchies with a recursive concrete production as the start symbol
     for d in family():
+        for i, cl in enumerate(d["classes"]):
+            if cl["abs"] is None and any('"sym"' in json.dumps(t) for t in cl["fields"]):
+                fam.append(dict(d, start=i))
+                break
+    for d in fam:
         for dec in (["max", 4], ["pi", 5], ["full", 3]):
             for _ in range(1 if not big else 4):
                 cases.append({"op": "rep", "decl": d, "rep": {"kind": "tree", "decider": dec}, "seed": r.randrange(10**6), "ops": rc.breeding_ops(5 if not big else 10)})
@@ -151,6 +159,12 @@ def run(tier, seed, replay=None):
         c, o, t = used[min(corr_only, key=lambda j: len(used[j][2]))]
         chk.violation("correspondence", f"model and implementation disagree on the node metadata ({len(corr_only)} of {len(used)} programs); smallest: " + describe(c, o),
                       {"component": "node metadata", "correspondence_no_longer_checks": "relabel_nodes", "driver": "synth", "case": c, "observed": o, "coq_term": t[:4000]}, False)
+    # the type index of every node lists objects of its own subtree (by identity): a reused subtree must not drag along entries of the donor program
+    for c, o, t in used:
+        if any(len(lab) > 5 and lab[5] == "foreign-entry" for lab in o["ok"]["labels"]):
+            chk.violation("oracle", "[node metadata] gengy_types_this_way of a node lists an object that is not part of that node's subtree (stale entry of another program): " + describe(c, o),
+                          {"component": "node metadata", "case": c, "observed": o}, True)
+            break
     # every object must be labelled at all
     for c, o, t in used:
         if any(not lab[4] or None in lab[:3] for lab in o["ok"]["labels"]):
